@@ -212,7 +212,17 @@ def build_router(case: dict, trace: Trace, loop: vclock.VLoop, fn_tag: str = "",
                             e.callbacks.append(("retry-refused", None, next(trace.spy.seq)))
                 leave(e, "eager")
                 try:
-                    await getattr(m, o["action"])()
+                    if o.get("guard"):
+                        # application code often answers inside its own `try: ... except Exception:` (logging and carrying on when
+                        # something ordinary fails): the eager response is not an ordinary failure and is not for it to catch
+                        try:
+                            await getattr(m, o["action"])()
+                        except ValueError:
+                            raise  # (a refused action - spent retry budget - is an ordinary error: it fails the attempt as usual)
+                        except Exception:  # noqa: BLE001
+                            e.callbacks.append(("eager-response-caught-as-exception", o["action"], next(trace.spy.seq)))
+                    else:
+                        await getattr(m, o["action"])()
                 finally:
                     if o.get("then"):
                         # while unwinding from the eager response the actor tries another action on the same handle:
